@@ -40,35 +40,51 @@ Qed.
 Lemma bind_ok {A B} (r : res A) (f : A -> res B) b : bind r f = Ok b -> exists a, r = Ok a /\ f a = Ok b.
 Proof. destruct r; cbn; intros H; try discriminate. eauto. Qed.
 
+Lemma inc_satisfy_cnt_sat fuel s p : inc_satisfy_cnt fuel s = Ok p -> inactive_sat (fst p).
+Proof.
+  unfold inc_satisfy_cnt. intros H.
+  apply bind_ok in H. destruct H as [p1 [_ H]].
+  apply bind_ok in H. destruct H as [s2 [_ H]].
+  apply bind_ok in H. destruct H as [s3 [H E]]. inversion E. subst p. cbn [fst].
+  apply final_scan_ok in H. destruct H as [-> H]. exact H.
+Qed.
+
 Theorem inc_satisfy_sat fuel s s' : inc_satisfy fuel s = Ok s' -> inactive_sat s'.
 Proof.
-  unfold inc_satisfy. intros H.
-  apply bind_ok in H. destruct H as [s1 [_ H]].
-  apply bind_ok in H. destruct H as [s2 [_ H]].
-  apply final_scan_ok in H. destruct H as [-> H]. exact H.
+  unfold inc_satisfy. intros H. apply bind_ok in H. destruct H as [p [H E]]. inversion E. subst s'.
+  exact (inc_satisfy_cnt_sat _ _ _ H).
 Qed.
 
 Lemma inactive_sat_note s a b : inactive_sat s -> inactive_sat (note s a b).
 Proof. unfold note. destruct (Qltb _ _); [|auto]. intros H c. exact (H c). Qed.
 
-Lemma solve_loop_sat fuel sf : forall lc c s s',
-  inactive_sat s -> solve_loop fuel sf lc c s = Ok s' -> inactive_sat s'.
+Lemma solve_loop_sat fixed fuel sf : forall tries lc c cnt s s',
+  inactive_sat s -> solve_loop fixed fuel sf tries lc c cnt s = Ok s' -> inactive_sat s'.
 Proof.
-  induction fuel as [|f IH]; intros lc c s s' Hs H; [discriminate|].
+  induction fuel as [|f IH]; intros tries lc c cnt s s' Hs H; [discriminate|].
   cbn [solve_loop] in H.
   set (s0 := match lc with Some l => note s (Qabs' (l - c)) COST_EPS | None => s end) in *.
   assert (Hs0 : inactive_sat s0) by (unfold s0; destruct lc; [apply inactive_sat_note|]; exact Hs).
-  destruct (match lc with None => true | Some l => Qltb COST_EPS (Qabs' (l - c)) end).
-  - apply bind_ok in H. destruct H as [s1 [H1 H]].
-    apply (IH _ _ _ _ (inc_satisfy_sat _ _ _ H1) H).
-  - inversion H. subst. exact Hs0.
+  assert (Again : forall t, bind (inc_satisfy_cnt sf s0)
+             (fun p => solve_loop fixed f sf t (Some c) (cost (fst p)) (snd p) (fst p)) = Ok s' -> inactive_sat s').
+  { intros t G. apply bind_ok in G. destruct G as [p [G1 G2]].
+    apply (IH _ _ _ _ _ _ (inc_satisfy_cnt_sat _ _ _ G1) G2). }
+  destruct fixed.
+  - destruct (_ || _).
+    + destruct tries as [|t]; [inversion H; subst; exact Hs0 | exact (Again t H)].
+    + inversion H. subst. exact Hs0.
+  - destruct (match lc with None => true | Some l => Qltb COST_EPS (Qabs' (l - c)) end).
+    + exact (Again tries H).
+    + inversion H. subst. exact Hs0.
 Qed.
 
-Theorem inc_solve_sat fuel s s' : inc_solve fuel s = Ok s' -> inactive_sat s'.
+Theorem inc_solve_gen_sat fixed fuel s s' : inc_solve_gen fixed fuel s = Ok s' -> inactive_sat s'.
 Proof.
-  unfold inc_solve. intros H. apply bind_ok in H. destruct H as [s1 [H1 H]].
-  exact (solve_loop_sat _ _ _ _ _ _ (inc_satisfy_sat _ _ _ H1) H).
+  unfold inc_solve_gen. intros H. apply bind_ok in H. destruct H as [p [H1 H]].
+  exact (solve_loop_sat _ _ _ _ _ _ _ _ _ (inc_satisfy_cnt_sat _ _ _ H1) H).
 Qed.
+Theorem inc_solve_sat fuel s s' : inc_solve fuel s = Ok s' -> inactive_sat s'.
+Proof. exact (inc_solve_gen_sat true fuel s s'). Qed.
 
 (* the model's slack is the declarative slack of the reported positions *)
 Lemma final_positions_nth s i :
@@ -736,3 +752,36 @@ Example sat_on_return_example :
   exists s', run_result Solve 100 (init iv_vs iv_cs) s' /\ act_of s' 0 = true /\ act_of s' 1 = true /\
              existsb (fun b => b) (cuns s') = false.
 Proof. eexists. split; [cbn [run_result]; vm_compute; reflexivity | vm_compute; auto]. Qed.
+
+(* ------------------------------------------------------------------ act_inv as a decidable check on a concrete state
+   (run by the extracted driver on every state the model returns, and by the C++ harness on the real solver's state:
+   this validates, on every evaluation of the checks, the part of act_inv whose preservation by split is not proved) *)
+Definition act_invb (s : st) : bool :=
+  forallb (fun c => negb (act_of s c) ||
+                    (Nat.eqb (blk_of s (cl (con_of s c))) (blk_of s (cr (con_of s c)))
+                     && Qeqb (off_of s (cr (con_of s c)) - off_of s (cl (con_of s c))) (gap (con_of s c))))
+          (seq 0 (length (cact s))).
+
+Theorem act_invb_spec s : act_invb s = true <-> act_inv s.
+Proof.
+  unfold act_invb, act_inv, tight_off. rewrite forallb_forall. split.
+  - intros H c Ha.
+    assert (Hc : (c < length (cact s))%nat).
+    { destruct (Nat.lt_ge_cases c (length (cact s))) as [L|L]; [exact L|].
+      unfold act_of in Ha. rewrite nth_overflow in Ha by exact L. discriminate. }
+    specialize (H c). rewrite in_seq in H. specialize (H ltac:(lia)).
+    rewrite Ha in H. cbn in H. apply andb_true_iff in H. destruct H as [A B].
+    apply Nat.eqb_eq in A. apply Qeqb_spec in B. split; assumption.
+  - intros H c _. destruct (act_of s c) eqn:Ha; [|reflexivity]. cbn.
+    destruct (H c Ha) as [A B]. apply andb_true_iff. split; [apply Nat.eqb_eq; exact A | apply Qeqb_spec; exact B].
+Qed.
+
+(* the contract other properties can use for a returned state that passes the check *)
+Corollary contract_checked fuel s o s' :
+  run_result o fuel s s' ->
+  wf_cons (svars s') (scons s') -> wf_vars (svars s') ->
+  act_invb s' = true ->
+  forall k, (k < length (scons s'))%nat -> uns_of s' k = false ->
+    let sl := slackv (svars s') (place_of (final_positions s')) (con_of s' k) in
+    ZERO_UPPERBOUND <= sl /\ (act_of s' k = true -> sl == 0).
+Proof. intros R W WV B. apply (sat_on_return_full fuel s o s' R W WV). apply act_invb_spec. exact B. Qed.
